@@ -143,6 +143,7 @@ def rich_nexus_docs(draw, max_taxa=5, max_trees=3, max_blocks=3, max_chars=6, re
     trees = []
     feats = {"translate": False, "comment": False, "weight": False, "blocks": nblocks, "recased": False}
     tb = 0
+    renumber = taxa_block and nblocks >= 2 and ntax >= 2 and not translate and draw(st.integers(0, 3)) == 0
     for kind in order:
         if kind == "M":
             title = "M%d" % len(matrices) if n_matrix > 1 else None
@@ -163,9 +164,13 @@ def rich_nexus_docs(draw, max_taxa=5, max_trees=3, max_blocks=3, max_chars=6, re
             feats["linked"] = True
         if draw(st.integers(0, 3)) == 0:
             out += "  " + draw(st.sampled_from(PRE_COMMENTS + PRE_META)) + "\n"
-        style = draw(st.sampled_from(["labels", "labels", "translate", "translate"] + (["numbers"] if numbered else [])))
+        style = draw(st.sampled_from(["labels", "labels", "translate", "translate"] + (["numbers"] * 2 if numbered else [])))
         if translate:
             style = "translate"
+        if renumber:
+            # an early block renumbers the taxa in its TRANSLATE table; later blocks refer to the taxa by TAXA number
+            # (or label) and must not see that table any more
+            style = "translate" if tb == 0 else draw(st.sampled_from(["numbers", "numbers", "labels"]))
         leaf_text = dict((i, label_texts[i]) for i in taxa)
         # (not with matrices: routes that skip the DATA block would meet the re-cased spelling first)
         if recase and not n_matrix and (tb or taxa_block):
@@ -178,7 +183,13 @@ def rich_nexus_docs(draw, max_taxa=5, max_trees=3, max_blocks=3, max_chars=6, re
             tokens = draw(st.sampled_from([["%d" % (k + 1) for k in range(ntax)], ["k%d" % k for k in range(ntax)],
                                            ["%d" % (k + 11) for k in range(ntax)]]))
             tord = list(draw(st.permutations(taxa)))
-            if numbered and tokens[0] == "1":
+            if renumber:
+                tokens = ["%d" % (k + 1) for k in range(ntax)]
+                if tord == taxa:
+                    tord = tord[1:] + tord[:1]
+            elif numbered and tokens[0] == "1" and draw(st.booleans()):
+                # half of the time the table numbers the taxa as the TAXA block does; otherwise its own numbering,
+                # which holds for THIS block only (a later block without TRANSLATE counts in TAXA order again)
                 tord = taxa
             items = [tokens[k] + " " + leaf_text[i] for k, i in enumerate(tord)]
             leaf_text = dict((i, tokens[k]) for k, i in enumerate(tord))
